@@ -936,6 +936,11 @@ func (g *GoFakeS3) initiateMultipartUpload(bucket, object string, w http.Respons
 		return err
 	}
 
+	if object == "" {
+		// POST /bucket?uploads: the upload, and the object it would end in,
+		// would have the key "" that no request can name.
+		return ErrorInvalidArgument("key", object, "A multipart upload needs the key of an object.")
+	}
 	uploadID, err := g.uploader.CreateMultipartUpload(bucket, object, meta)
 	if err != nil {
 		return err
